@@ -787,6 +787,10 @@ class DirectoryRecord:
                     if not allow_duplicate:
                         raise pycdlibexception.PyCdlibInvalidInput('Failed adding duplicate name to parent')
 
+                    # A file with more than two sections already has
+                    # continuation records; the new one follows the last.
+                    while index + 1 < len(self.children) and self.children[index + 1].file_ident == child.file_ident:
+                        index += 1
                     self.children[index].data_continuation = child
                     self.children[index].file_flags |= (1 << self.FILE_FLAG_MULTI_EXTENT_BIT)
                     index += 1
